@@ -717,7 +717,7 @@ func execC07(x *hysim.Run) {
 	faultsUsed := false
 	settle := func() {
 		if waitEach {
-			synctest.Wait()
+			hysim.Settle()
 		}
 	}
 	for _, op := range sc.Ops {
